@@ -60,10 +60,10 @@ out.append('''
 |---|---|---|
 | C19 | seconds <-> calendar fields bijection, format/parse round trip | bit-precise double arithmetic: z3/cvc5 unknown after 150-600 s on 3-year / 3-day windows; enumeration of days would not be this technique |
 | C20 | floating-point residual bound; axis-angle and Euler conversions; solve 4x4, least squares 4x3 | reals instead of doubles; sin/cos/atan2 are not encodable; z3 nlsat > 20 min per pivot path at 4x4 |
-| C10 | bodies up to megabytes, 16000/128000-byte block boundaries, 3-64 concurrent clients | symbolic execution of the whole client+server stack per byte; two clients with <= 2 preemptions is what finishes |
+| C10 | bodies up to megabytes (beyond 32001 bytes; the 128000-byte send block), more than a handful of symbolic bytes per body, 3-64 concurrent clients | symbolic execution of the whole client+server stack per byte; the 16000-byte receive/file block is crossed with concrete filler and symbolic edge bytes; two clients with 1 preemption is what finishes |
 | C12-C14 | data races between plain accesses, weak-memory effects, schedules beyond the preemption bound | the thread model switches only at visible operations and is sequentially consistent |
 | C14 | Unix-socket paths, bursts of 200 connections | model has TCP listeners only, 6 connection slots |
-| C17 | files beyond 4 KiB (65536-byte copy block), Directory operations, real file systems | in-memory stdio model |
+| C17 | files beyond 4 KiB (the 65536-byte copy block), Directory operations, real file systems | in-memory stdio model (one 40000-byte and three 4096-byte files) |
 | C01-C08, C15, C16, C18 | inputs longer than the stated lengths / histories longer than the stated number of operations | bounded exploration; bounds per property above |
 
 ''')
